@@ -290,11 +290,17 @@ def keyword_root_cause(err, wit_text, keywords, loc_re=r"^(\S+?):(\d+):(\d+): (?
         # only words the compiler quotes, or words standing where a declared name
         # stands on the offending line, count (a keyword used *as* a keyword at
         # the error position is not evidence of a naming problem)
-        cands = re.findall(r"[`'‘]([A-Za-z_][A-Za-z0-9_]*)['’`]", line)
-        if path:
-            cands += identifier_position_words(source_line(path, ln))
+        cands = []
+        for rx in (r"keyword `(\w+)`", r"'(\w+)' is a keyword", r"after '(\w+)'", r"before ‘(\w+)’(?: token)?\s*$", r"before '(\w+)'\s*$"):
+            cands += re.findall(rx, line)
+        src = source_line(path, ln) if path else ""
+        if src:
+            cands += identifier_position_words(src)
         for tok in cands:
             if tok and tok in keywords:
+                if re.search(r"\bmod\s+%s\b|::%s::|::%s\b\s*;" % (tok, tok, tok), src) and not re.search(r"\bfn\b", src):
+                    # a package namespace / package / interface name used as a Rust module path segment
+                    return "unescaped-keyword:module-path-segment"
                 upper = tok.upper().replace("_", "-")
                 if re.search(r"(?<![\w-])%?" + re.escape(upper) + r"(?![\w-])", wit_text):
                     return "unescaped-keyword:uppercase-wit-id"
@@ -346,30 +352,23 @@ GENERATOR_TEMPORARIES = re.compile(
     r"handle\d*|e\d*|t\d*|v\d*|l\d*|p\d*|option\d*|key\d*|map\d*|tuple\d*|flags\d*|addr\d*|arg\d+|ret|val|rep)(?![\w-])")
 
 def confirmed_temporary_collision(err, wit_text):
-    """A clash between a user name and a generator temporary is confirmed when an
-    identifier that (a) is a name written in the WIT (snake_case spelling) and
-    (b) has the shape of a generator-introduced local occurs in the source
-    excerpt of the first diagnostic.  Returns the identifier or None."""
+    """A clash between a user name and a generator temporary counts as confirmed
+    only when the first diagnostic's *message* names an identifier that (a) is
+    written in the WIT (snake_case spelling) and (b) has the shape of a
+    generator-introduced local (`ret_area`, `cleanup_list`, `ptr0`, ...).
+    Anything weaker is left unclassified.  Returns the identifier or None."""
     wit_names = {m.group(0).lower().replace("-", "_") for m in GENERATOR_TEMPORARIES.finditer(wit_text)}
-    # single letters / `pN` are far too common to count as evidence
     wit_names = {n for n in wit_names if len(n) > 2 and not re.fullmatch(r"[a-z]\d*", n)}
     if not wit_names:
         return None
-    excerpt = []
-    seen_error = False
     for line in err.splitlines():
-        if re.match(r"error(\[E\d+\])?: ", line) or re.search(r": (fatal )?error: ", line):
-            if seen_error:
-                break
-            seen_error = True
+        m = re.search(r"error(?:\[E\d+\])?: (.*)$", line)
+        if not m:
             continue
-        if seen_error and (re.match(r"\s*\d+\s*\|", line) or not line.startswith(" " * 12)):
-            excerpt.append(line)
-        if len(excerpt) > 12:
-            break
-    words = set(re.findall(r"[A-Za-z_][A-Za-z0-9_]*", "\n".join(excerpt)))
-    hit = sorted(wit_names & words)
-    return hit[0] if hit else None
+        words = set(re.findall(r"[A-Za-z_][A-Za-z0-9_]*", m.group(1)))
+        hit = sorted(wit_names & words)
+        return hit[0] if hit else None
+    return None
 
 
 _RUST_VOCAB = re.compile(r"^(&|&mut |\*const |\*mut )?(wit_|_rt|into_|as_|from_|Vec|String|str|Box|Option|Result|BTreeMap|HashMap|AsI|AsF|Guest$|(Self|self|crate|super)$|u8|u16|u32|u64|i8|i16|i32|i64|f32|f64|usize|bool|char)")
